@@ -144,6 +144,16 @@ func C16_Step() {
 		// constant frame space: never more than main + (g) + f
 		vf.Assert(m.maxFI <= 3, "frame index stays constant under tail calls: "+sk.name)
 	}
+	if sk.tail && !vf.Symbolic() {
+		// native replay has no VM probe: frame growth is observed instead by a
+		// run far beyond the frame and operand-stack capacities
+		cd, _, errd := runTC(sk, 5000, 1)
+		vf.Assert(errd == nil, "self tail call completes at depth 5000 (native): "+sk.name)
+		wd, _ := sk.ref(5000, 1)
+		if sk.name != "capture" {
+			vf.Assert(cd.Get("out").Int64() == wd, "deep native result: "+sk.name)
+		}
+	}
 	// For calls that are not in tail position only the observable outcome is
 	// asserted (the result above): whether the VM reuses the frame while
 	// discarding the callee's value is not observable and not demanded.
